@@ -262,47 +262,174 @@ def rule_ctor(model):
         if not has_us:
             r.finding(fi.where, b, "names starting with '_' are copied from "
                       'the construction mapping', node=b, ctx=fi)
-    if not stores and not bulk:
+    copies = [(fi, s_, kw) for s_ in stores]
+    for h, c, m in model.helper_calls([fi], None) if False else []:
+        pass
+    for c in own_nodes(fi.node):
+        if not isinstance(c, ast.Call):
+            continue
+        for t in model.resolve_callee(c.func, fi):
+            if t[0] != 'func' or t[1] is fi:
+                continue
+            h = t[1]
+            hp = h.params()
+            for i, a_ in enumerate(c.args):
+                if norm(a_) == kw and i < len(hp):
+                    for n in own_nodes(h.node):
+                        if isinstance(n, ast.Assign) and isinstance(
+                                n.targets[0], ast.Subscript) and \
+                                norm(n.targets[0].value) == hp[i]:
+                            copies.append((h, n, hp[i]))
+    if not copies and not bulk:
         raise AnalysisError('initvars: copy into the keyword dict not found')
-    for s in stores:
-        key = norm(s.targets[0].slice)
-        tests = []
-        for anc in ancestors(s):
-            if isinstance(anc, ast.If):
-                tests.append(anc.test)
-            if isinstance(anc, ast.FunctionDef):
-                break
-        conj = []
-        for t in tests:
-            conj += t.values if isinstance(t, ast.BoolOp) and \
-                isinstance(t.op, ast.And) else [t]
-        has_not_in = any(isinstance(c, ast.Compare) and
-                         isinstance(c.ops[0], ast.NotIn) and
-                         norm(c.left) == key and
-                         norm(c.comparators[0]) == kw for c in conj)
-        has_us = any(isinstance(c, ast.Compare) and "'_'" in norm(c) and
-                     key in norm(c.left) and
-                     isinstance(c.ops[0], (ast.NotEq, ast.Eq, ast.Is,
-                                           ast.IsNot)) or
-                     (isinstance(c, ast.UnaryOp) and 'startswith' in
-                      norm(c)) for c in conj)
-        r.instance(fi.where, s, f'guards: not-in={has_not_in} '
-                   f'underscore={has_us}')
+    # the copy loop, decided by scenario: one iteration is interpreted for
+    # a private / public name that the keyword dict has / lacks; the store
+    # may be reached for (public, lacking) only -- whatever the spelling of
+    # the guards (nested ifs, one conjunction, continue-guards, named tests)
+    for f, s_, kwname in copies:
+        key = s_.targets[0].slice
+        lp = next((a_ for a_ in ancestors(s_) if isinstance(a_, ast.For)),
+                  None)
+        if lp is None or not isinstance(key, ast.Name):
+            r.instance(f.where, s_, 'copy outside a loop over the mapping')
+            r.finding(f.where, s_, 'the construction mapping is copied into '
+                      'the keyword defaults without the per-name tests',
+                      node=s_, ctx=f)
+            continue
+        reached = {}
+        for private in (True, False):
+            for present in (True, False):
+                dom = _CopyDomain(key.id, kwname, private, present, s_)
+                Interp(dom).block(lp.body, _CS())
+                reached[(private, present)] = dom.hit
+        has_not_in = not reached[(False, True)] and not reached[(True, True)]
+        has_us = not reached[(True, False)] and not reached[(True, True)]
+        r.instance(f.where, s_, f'guards: not-in={has_not_in} '
+                   f'underscore={has_us} copied={reached[(False, False)]}')
         if not has_not_in:
-            r.finding(fi.where, s, 'the construction mapping overrides a '
+            r.finding(f.where, s_, 'the construction mapping overrides a '
                       'keyword default of the same name (copy not guarded '
-                      f'by `{key} not in {kw}`)', node=s, ctx=fi)
+                      f'by `{key.id} not in {kwname}`)', node=s_, ctx=f)
         if not has_us:
-            r.finding(fi.where, s, "names starting with '_' are copied from "
-                      'the construction mapping', node=s, ctx=fi)
+            r.finding(f.where, s_, "names starting with '_' are copied from "
+                      'the construction mapping', node=s_, ctx=f)
+        if not reached[(False, False)]:
+            r.finding(f.where, s_, 'a public name the keywords lack is not '
+                      'copied from the construction mapping', node=s_,
+                      ctx=f)
     # self.globals is the keyword dict
     asg = [n for n in own_nodes(fi.node) if isinstance(n, ast.Assign)
            and isinstance(n.targets[0], ast.Attribute)
            and n.targets[0].attr == 'globals']
-    if not asg or norm(asg[0].value) != kw:
+
+    def is_kw(v, depth=0):
+        if norm(v) == kw:
+            return True
+        if isinstance(v, ast.Name) and depth < 3:
+            ds = model.local_defs(fi, v.id)
+            return bool(ds) and all(isinstance(d, ast.AST) and
+                                    is_kw(d, depth + 1) for d in ds)
+        if isinstance(v, ast.Call):
+            for t in model.resolve_callee(v.func, fi):
+                if t[0] != 'func':
+                    continue
+                h = t[1]
+                hp = h.params()
+                idx = [i for i, a_ in enumerate(v.args) if norm(a_) == kw]
+                rets = [x for x in own_nodes(h.node)
+                        if isinstance(x, ast.Return)]
+                if len(idx) == 1 and idx[0] < len(hp) and rets and all(
+                        x.value is not None and
+                        norm(x.value) == hp[idx[0]] for x in rets) and \
+                        not any(isinstance(y, ast.Name) and
+                                y.id == hp[idx[0]] and
+                                isinstance(y.ctx, ast.Store)
+                                for y in own_nodes(h.node)):
+                    return True
+        return False
+    if not asg or not is_kw(asg[0].value):
         r.finding(fi.where, 'self.globals = ...', 'the template defaults '
                   'are not the merged keyword dict', node=fi.node, ctx=fi)
     return r
+
+
+class _CS(BaseState):
+    def __init__(self, env=None):
+        self.env = dict(env or {})
+
+    def key(self):
+        return tuple(sorted(self.env.items()))
+
+    def copy(self):
+        n = _CS(self.env)
+        n.trace = self.trace
+        return n
+
+
+class _CopyDomain(Domain):
+    """One round of the loop that copies the construction mapping, for a
+    name that is private / public and present / absent in the keywords."""
+
+    def __init__(self, key, kw, private, present, store):
+        self.key, self.kw = key, kw
+        self.private, self.present = private, present
+        self.store = store
+        self.hit = False
+
+    def truth(self, e, st):
+        if isinstance(e, ast.Name) and e.id in st.env:
+            return st.env[e.id]
+        if isinstance(e, ast.UnaryOp) and isinstance(e.op, ast.Not):
+            v = self.truth(e.operand, st)
+            return None if v is None else not v
+        if isinstance(e, ast.BoolOp):
+            vs = [self.truth(v, st) for v in e.values]
+            if isinstance(e.op, ast.And):
+                if any(v is False for v in vs):
+                    return False
+                return True if all(v is True for v in vs) else None
+            if any(v is True for v in vs):
+                return True
+            return False if all(v is False for v in vs) else None
+        if isinstance(e, ast.Compare) and len(e.ops) == 1:
+            l, op, r_ = e.left, e.ops[0], e.comparators[0]
+            if isinstance(op, (ast.In, ast.NotIn)) and \
+                    norm(l) == self.key and norm(r_) == self.kw:
+                return self.present if isinstance(op, ast.In) \
+                    else not self.present
+            if isinstance(r_, ast.Constant) and r_.value == '_' and \
+                    self.key in norm(l) and isinstance(
+                        op, (ast.Eq, ast.NotEq)):
+                return self.private if isinstance(op, ast.Eq) \
+                    else not self.private
+        if isinstance(e, ast.Call) and isinstance(e.func, ast.Attribute) \
+                and e.func.attr == 'startswith' and \
+                norm(e.func.value) == self.key and e.args and isinstance(
+                    e.args[0], ast.Constant) and e.args[0].value == '_':
+            return self.private
+        return None
+
+    def branch(self, test, st):
+        v = self.truth(test, st)
+        if v is None:
+            return [(True, st), (False, st)]
+        return [(v, st)]
+
+    def raises(self, node, st):
+        return []
+
+    def effects(self, stmt, st):
+        if stmt is self.store:
+            self.hit = True
+        if isinstance(stmt, ast.Assign) and len(stmt.targets) == 1 and \
+                isinstance(stmt.targets[0], ast.Name):
+            v = self.truth(stmt.value, st)
+            st = st.copy()
+            if v is None:
+                st.env.pop(stmt.targets[0].id, None)
+            else:
+                st.env[stmt.targets[0].id] = v
+        return st
 
 
 def _const_truth(e):
